@@ -116,7 +116,7 @@ def gen_nw(ctx):
         end = rng.choice([fl, fl, fl, max(off, fl - 1), min(fl, off + 1)])
         return "%s%d.%d.%d.%d" % (rng.choice("fF"), rng.randint(0, 250), fl, min(off, end), end)
 
-    n = 6000 if ctx.quick else 60000
+    n = 6000 if ctx.quick else 250000
     for _ in range(n):
         small = rng.random() < 0.5
         q = [rchunk(small) for _ in range(rng.choice([1, 1, 2, 3, 4, 6]))]
@@ -302,7 +302,7 @@ def gen_prep(ctx):
                 body = pat(sz & 0xff, sz)
                 lines.append("prep 200 G %d %d 1 65 - %s %s" % (v, fin, C.hx(body[:sz // 2]), C.hx(body[sz // 2:])))
                 lines.append("prep 200 G %d %d 1 65 - - %s %s" % (v, fin, C.hx(body), C.hx(body[:7])))
-    n = 3000 if ctx.quick else 40000
+    n = 3000 if ctx.quick else 300000
     for _ in range(n):
         hs = list(rng.choice(hsets))
         if rng.random() < 0.3:
@@ -450,7 +450,7 @@ def gen_enc(ctx):
                 for st in (301, 308, 0):
                     lines.append("redir %d %d %s %s %s %s" % (ab, st, C.hx(rng.choice([b"http", b"https"])),
                                                              C.hx(rng.choice([b"a.b", b"a.b:8080", b"[::1]:81"])), C.hx(p), C.hx(q)))
-    n = 3000 if ctx.quick else 40000
+    n = 3000 if ctx.quick else 150000
     for _ in range(n):
         s = bytes(rng.choice([rng.randint(0, 255), rng.choice(b"/%?#\r\n \x00ab~.")]) for _ in range(rng.randint(1, 24)))
         lines.append("enc %d %s" % (rng.randint(0, 3), C.hx(s)))
@@ -487,13 +487,14 @@ DIRS = ["dir", "d ir", "d\"q<r>", "dé", "d__X-Injected: y", "d%41", "d;a=b&c"]
 CONF = """
 server.network-backend = "%(backend)s"
 server.stream-response-body = %(stream)d
-server.max-keep-alive-idle = 4
+server.max-keep-alive-idle = %(kaidle)d
 server.max-keep-alive-requests = %(kareq)d
 server.max-read-idle = 10
 server.max-write-idle = 20
 server.max-connections = 64
 cgi.assign = (".sh" => "/bin/sh")
 %(parseopts)s
+%(errdoc)s
 """
 
 CGI = {
@@ -509,6 +510,9 @@ CGI = {
     "s_500.sh": ("printf 'Status: 500\\r\\nContent-Type: text/plain\\r\\n\\r\\n'\nprintf 'oops'\n", 500, b"oops", None),
     "s_echo.sh": ("printf 'Content-Type: application/octet-stream\\r\\n\\r\\n'\ncat\n", 200, "echo", None),
 }
+
+
+ERRDOC_404 = b"<html><body>custom 404 page " + pat(9, 20000) .replace(b"<", b"(") + b"</body></html>\n"
 
 
 def file_bytes(idx):
@@ -731,6 +735,9 @@ def build_docroot(srv):
     for name, (script, _, _, _) in CGI.items():
         with open(os.path.join(srv.docroot, name), "w") as f:
             f.write("#!/bin/sh\n" + script)
+    os.makedirs(os.path.join(srv.root, "errdocs"), exist_ok=True)
+    with open(os.path.join(srv.root, "errdocs", "status-404.html"), "wb") as f:
+        f.write(ERRDOC_404)
 
 
 def cgi_body(name):
@@ -746,7 +753,26 @@ def e2e_cases(ctx, variant, rng):
     nsz = len(SIZES)
     big = [i for i in range(nsz) if SIZES[i] >= 65535]
     kareq = variant["kareq"]
+    if variant.get("kaidle") == 0:
+        # keep-alive switched off by configuration: every response closes the connection
+        for i in (0, 1, 5, 12):
+            q = static_req(i)
+            q.ka = 0
+            q.model = [mline(200, "G", 1, 1, 1, 64 | 8, SIZES[i], SIZES[i])]
+            cases.append(("kaidle0-%d" % SIZES[i], [q, static_req(1)], None, None))
+        q = Req(req_bytes("GET", "/nope"), 404, "errpage", ka=0, kind="404-kaidle0", model=[mline(404, "G", 1, 1, 1, 64 | 8, None, 0)])
+        cases.append(("kaidle0-404", [q], None, None))
+        q = static_req(2, ver=0, ka10=True)
+        q.ka = 0
+        q.model = [mline(200, "G", 0, 1, 1, 64 | 8, SIZES[2], SIZES[2])]
+        cases.append(("kaidle0-1.0", [q], None, None))
+        return cases
     if kareq < 100:
+        # custom error document (server.errorfile-prefix): body is that file, Content-Length exact
+        reqs = [Req(req_bytes("GET", "/missing"), 404, ERRDOC_404, kind="404-errorfile", model=None),
+                Req(req_bytes("HEAD", "/missing"), 404, b"", head=True, kind="404-errorfile-head", model=None, cl=len(ERRDOC_404)),
+                Req(req_bytes("GET", "/missing", 0), 404, ERRDOC_404, ver=0, ka=0, kind="404-errorfile-1.0", model=None)]
+        cases.append(("errorfile", reqs, None, None))
         # keep-alive request limit: the (kareq+1)-th response closes the connection
         reqs = []
         for j in range(kareq + 3):
@@ -883,8 +909,21 @@ def e2e_cases(ctx, variant, rng):
     hdr = req_bytes("POST", "/s_echo.sh", 1, ["Content-Length: %d" % len(payload), "Expect: 100-continue"])
     fins = [1] if stream == 0 else [0, 1]
     q = Req(hdr + payload, 200, payload, kind="expect-100", model=[mline(200, "P", 1, f, 1, 1 | 64, None, len(payload)) for f in fins])
-    cases.append(("expect-100", [q, static_req(2, close=True)], None, [(hdr, "wait100"), (payload + static_req(2, close=True).raw, 0)]))
+    for _ in range(12 if variant.get("shim") else 1):
+        cases.append(("expect-100", [q, static_req(2, close=True)], None, [(hdr, "wait100"), (payload + static_req(2, close=True).raw, 0)]))
+    # HTTP/1.0 keep-alive request for a streamed body: the response path must switch keep-alive off
+    for name in ("s_two.sh", "s_big.sh", "s_empty.sh"):
+        body = cgi_body(name)
+        md = [mline(200, "G", 0, f, 1, 1 | 64, None, len(body)) for f in fins]
+        q = Req(req_bytes("GET", "/" + name, 0, ["Connection: keep-alive"]), 200, body, ver=0, ka=1, kind="cgi10ka-" + name, model=md)
+        q.adaptive = True
+        cases.append(("cgi10-keepalive-%s" % name, [q, static_req(1, ver=0, ka10=True), static_req(2, ver=0)], None, None))
     return cases
+
+
+def vname_of(v):
+    return "%(backend)s/stream%(stream)d/kareq%(kareq)d/ctrls%(ctrls)d" % v + ("/kaidle0" if v.get("kaidle") == 0 else "") \
+        + ("/faultshim" if v.get("shim") else "")
 
 
 def run_variant(ctx, bd, variant, rng, results):
@@ -899,7 +938,7 @@ def run_variant(ctx, bd, variant, rng, results):
     srv = e2e.Server(bd, CONF % variant, modules=("mod_cgi",), env=env)
     build_docroot(srv)
     cases = e2e_cases(ctx, variant, rng)
-    vname = "%(backend)s/stream%(stream)d/kareq%(kareq)d/ctrls%(ctrls)d" % variant + ("/faultshim" if env else "")
+    vname = vname_of(variant)
     validators = {}
 
     def one(case):
@@ -1117,6 +1156,15 @@ def check_exchange_adaptive(reqs, got, closed):
     """a response whose keep-alive is decided by the response path (streamed body to HTTP/1.0) may
     legitimately end the connection early: the Lean model's prediction is compared afterwards"""
     msg, obs = check_exchange(reqs, got, closed)
+    if msg:
+        for i, q in enumerate(reqs):
+            if getattr(q, "adaptive", False) and q.ka:
+                import copy
+                alt = [copy.copy(x) for x in reqs[:i + 1]]
+                alt[-1].ka = 0
+                msg2, obs2 = check_exchange(alt, got, closed)
+                if msg2 is None:
+                    return None, obs2
     return msg, obs
 
 
@@ -1127,6 +1175,7 @@ def run_e2e(ctx, only=None):
         return
     variants = [dict(backend=b, stream=s, kareq=100, ctrls=int((b == "writev") == (s == 1))) for b in ("writev", "sendfile") for s in (0, 1, 2)]
     variants.append(dict(backend="sendfile", stream=0, kareq=2, ctrls=0))
+    variants.append(dict(backend="writev", stream=1, kareq=100, ctrls=0, kaidle=0))
     variants[5]["strace"] = True          # count the short / EAGAIN socket writes that happen naturally
     # the same server with write/writev/sendfile made to return short / EAGAIN / EINTR (LD_PRELOAD shim)
     variants.append(dict(backend="writev", stream=1, kareq=100, ctrls=0, shim=1 + ctx.seed))
@@ -1135,10 +1184,11 @@ def run_e2e(ctx, only=None):
         for k, (b, st) in enumerate([("writev", 0), ("writev", 2), ("sendfile", 1), ("sendfile", 2), ("writev", 1), ("sendfile", 0)]):
             variants.append(dict(backend=b, stream=st, kareq=100, ctrls=k % 2, shim=1000 + 17 * k + ctx.seed))
     for v in variants:
+        v.setdefault("kaidle", 4)
+        v["errdoc"] = 'server.errorfile-prefix = "@ROOT@/errdocs/status-"' if v["kareq"] < 100 else ""
         v["parseopts"] = 'server.http-parseopts = ("url-ctrls-reject" => "disable")' if v["ctrls"] else ""
     if only is not None:
-        variants = [v for v in variants if "%(backend)s/stream%(stream)d/kareq%(kareq)d/ctrls%(ctrls)d" % v
-                    + ("/faultshim" if v.get("shim") else "") == only] or variants
+        variants = [v for v in variants if vname_of(v) == only] or variants
     results = []
     t0 = time.time()
     seeds = [ctx.rng.randrange(1 << 30) for _ in variants]
